@@ -30,6 +30,9 @@ func generateBindings(module, scratch string) (map[string]string, error) {
 	}
 	dep := filepath.Join(mdir, "restlidata", "generated", "go-restli-manifest.gr.json")
 	manifest := filepath.Join(verifDir(), "schemas", "vt.manifest.json")
+	if genManifestOverride != "" {
+		manifest = genManifestOverride
+	}
 	cmd := exec.Command("go", "run", "-mod=mod", "-overlay", ov, "./zzgen", dep, manifest, out)
 	cmd.Dir = mdir
 	cmd.Env = goEnv()
@@ -165,4 +168,54 @@ func generateRootBindings(scratch string) (map[string]string, error) {
 		return nil, fmt.Errorf("root generator produced no files")
 	}
 	return extra, nil
+}
+
+// genManifestOverride replaces the harness schema set for one generator run
+// (generatorRefusesDefaults).
+var genManifestOverride string
+
+func stripDefaults(v interface{}) interface{} {
+	switch x := v.(type) {
+	case map[string]interface{}:
+		delete(x, "defaultValue")
+		for k, c := range x {
+			x[k] = stripDefaults(c)
+		}
+	case []interface{}:
+		for i, c := range x {
+			x[i] = stripDefaults(c)
+		}
+	}
+	return v
+}
+
+// generatorRefusesDefaults decides why the v2 generator failed on the harness
+// schema set: it runs the same generator on the same schemas with every
+// schema default removed. If that run succeeds, the failure is caused by a
+// (well-formed) default value the generator refuses - such a default is never
+// applied, which is a violation of C13 and not merely a broken build.
+func generatorRefusesDefaults(module, scratch string) bool {
+	if module != "v2" {
+		return false
+	}
+	raw, err := os.ReadFile(filepath.Join(verifDir(), "schemas", "vt.manifest.json"))
+	if err != nil {
+		return false
+	}
+	var doc interface{}
+	if json.Unmarshal(raw, &doc) != nil {
+		return false
+	}
+	out, err := json.Marshal(stripDefaults(doc))
+	if err != nil {
+		return false
+	}
+	alt := filepath.Join(scratch, "vt.nodefaults.manifest.json")
+	if os.WriteFile(alt, out, 0o644) != nil {
+		return false
+	}
+	genManifestOverride = alt
+	defer func() { genManifestOverride = "" }()
+	_, err = generateBindings(module, scratch)
+	return err == nil
 }
